@@ -47,3 +47,32 @@ CLAIMS["C12"] = dict(
     note=_NOTE,
     technique=_T + "whole-program call-site rules D ERRFLOW, I FRESH, ROLE, B.2 dispatch, who-may-call for raw memory",
 )
+
+CLAIMS["C10"] = dict(category="other",
+    text=("Structural clauses of record handling: getitem_field/getitem_fields of every wrapper node class rebuilds the same class with all of its own index/mask/size members unchanged around "
+          "content->getitem_field(key) (projection commutes with positional structure by construction); util::key/fieldindex consult the lookup in declaration order; no same-named delegation "
+          "permutes parameters (495 parameter positions); with_field broadcasts [base, what] with right_broadcast=False, removes only the replaced key and keeps base.parameters."),
+    note=_NOTE, technique=_T + "constructor-argument agreement over the class table (RECORD.project-wrap), K FORWARD, Python ast clauses")
+CLAIMS["C14"] = dict(category="other",
+    text=("The promotion table of ArrayBuilder is extracted from the 7 leaf builders x 17 alphabet methods (119 cells) and compared with the documented unification (null -> option, int64 < float64 < complex128 "
+          "tower: lower ranks accepted in place, higher promote to exactly that rank, anything else -> union, unbalanced end*/field/index throw, UnknownBuilder starts the value's builder); every ArrayBuilder "
+          "forwarder passes the returned builder to maybeupdate; GrowableBuffer stores only at ptr_[length_] after the growth check and otherwise replaces ptr_ by fresh storage (snapshots are immutable); "
+          "all 22 extern \"C\" entry points are try/catch wrapped."),
+    note=_NOTE, technique=_T + "rule family M (action classification of method bodies vs a rank table), K FORWARD, D extern-C")
+CLAIMS["C16"] = dict(category="other",
+    text=("Writer/reader table agreement for to_buffers/from_buffers (per Form: buffers read are a subset of buffers written, each buffer is the attribute of that name, every written node class is "
+          "constructible from its Form, index-form <-> dtype <-> Index class <-> writer index_form are consistent in signedness and width, (Form, width) -> class of that width); pickle uses the two functions "
+          "with one key_format; util dtype tables are mutual inverses and format round-trips on all 18 enumerators (condition ASTs interpreted exhaustively); isinstance dispatches over width families are complete; "
+          "no converter writes into a buffer borrowed from a layout."),
+    note=_NOTE, technique=_T + "rule families J TABLE, N FINTAB (exhaustive interpretation of finite decision tables), E.3, I")
+CLAIMS["C18"] = dict(category="other",
+    text=("Every VirtualArray override of a Content virtual either delegates to array()->same method with exactly its own parameter list or is in the tabled lazy set (70 methods); ArrayGenerator::generate() is called "
+          "only from generate_and_check(), which throws on length and on form mismatch; VirtualArray::array() takes its value only from the cache or generate_and_check() and stores after that; every PartitionedArray "
+          "method that delegates to the same-named method of its partitions / toContent() forwards all of its parameters in order on every branch (34 delegations); no implicit 64->32 narrowing in the lazy-slice length."),
+    note=_NOTE, technique=_T + "rule family K FORWARD (C++ and Python), who-may-call, WIDTH lint over clang's implicit-cast nodes")
+CLAIMS["C19"] = dict(category="other",
+    text=("Abstract interpretation of ForthMachineOf::internal_run with a (guaranteed depth, guaranteed room, non-zero facts, depth-guard) state: 274 pop/peek/push/slot/division/return-stack obligations each "
+          "dominated by the matching guard that sets the matching error; opcode set = run cases = decompile cases; builtin words injective; opcode<->operator agreement for 8 arithmetic, 6 comparison, TRUE/FALSE opcodes; "
+          "every case reaches the common epilogue or is a tabled early exit; every return is an error exit; output writes call maybe_resize before storing; input read/seek/skip are bounds-checked and followed by an error test; "
+          "no implicit narrowing of stack values in any instantiation."),
+    note=_NOTE, technique=_T + "syntax-directed abstract interpretation (typestate) over the VM's dispatch loop; table agreement; WIDTH lint")
